@@ -92,6 +92,9 @@ Definition c20_spec (pair : sx) : sx :=
   let ls := map dec_label (sx_list (sx_nth x 1)) in
   of_bool
   match sx_tag imp with
-  | 1%Z => run_ok (sx_bool (sx_nth x 0)) ls (map (fun e => map dec_item (sx_list e)) (sx_list (sx_arg imp 0)))
+  | 1%Z =>
+      (* anything but a timestamp, a config or a metric item (e.g. the harness's panic marker) is a failure *)
+      forallb (fun e => forallb (fun it => (0 <=? sx_tag it)%Z && (sx_tag it <=? 2)%Z) (sx_list e)) (sx_list (sx_arg imp 0)) &&
+      run_ok (sx_bool (sx_nth x 0)) ls (map (fun e => map dec_item (sx_list e)) (sx_list (sx_arg imp 0)))
   | _ => false
   end.
